@@ -21,11 +21,13 @@ NEAR_MISS_NAMES = [
     # names the package uses itself for the fields of an operation, a graph node or a program
     "modes", "args", "kwargs", "op", "options", "idx", "parameters", "variables", "func", "regrefs", "expr",
     # names an implementation may use for its own placeholders and temporaries
-    "rhs", "lhs", "val", "res", "tmp", "var", "sol", "_x", "x0", "symbol", "value", "result", "self", "dummy", "Dummy", "xi", "_",
+    "rhs", "lhs", "val", "res", "tmp", "var", "sol", "_x", "x0", "symbol", "value", "result", "dummy", "Dummy", "xi", "_",
     # look like p-names to a lenient reader
     "p1_0", "p10_2", "p0_0", "p1_",
 ]
-PY_KEYWORDS = ["lambda", "is", "as", "if", "or", "and", "not", "del", "def", "from", "pass", "None", "class", "try"]
+# names Python gives a meaning of its own when parameter names are passed as keyword arguments: keywords, and the name
+# of the bound-method parameter of BlackbirdProgram.__call__ (known finding python-keyword-parameter-name)
+PY_KEYWORDS = ["lambda", "is", "as", "if", "or", "and", "not", "del", "def", "from", "pass", "None", "class", "try", "self"]
 GATE_NAMES = ["Sgate", "Dgate", "BSgate", "Rgate", "Vac", "Coherent", "Fock", "S2gate", "Xgate", "Zgate", "Kgate",
               "Interferometer", "GaussianTransform", "CXgate", "MZgate", "LossChannel", "Thermal", "G", "H", "Op_1"]
 MEASURE_NAMES = ["Measure", "MeasureX", "MeasureP", "MeasureFock", "MeasureHomodyne", "MeasureHD", "MeasureIntensity", "MeasureThreshold"]
